@@ -95,6 +95,7 @@ package abci
 //@   note nothing is decoded before the size limit is checked; a transaction is returned only if its envelope signature verified under the transaction context and its method is non-empty
 
 //@ func abciMux.processTx
+//@   assume-pre api\.Context\.TxSigner$
 //@   props C01 C09
 //@   requires mux != nil && mux.state != nil && ctx != nil && tx != nil
 //@   assume-pre (abciMux\.processSystemTx|applicationState\.ConsensusParameters|transaction\.Fee\.GasPrice)$
@@ -108,6 +109,14 @@ package abci
 //@   note a transaction is processed only after its signature verified, with the context's signer set to exactly the key that signed it
 
 // ---- proposal preparation (C01): the proposer executes its proposal with the commit info validators will see ----
+
+//@ ghost var GPropResets int
+
+//@ func abciMux.ProcessProposal
+//@   props C01
+//@   requires mux != nil && mux.state != nil
+//@   closure 1 ensures resp.Status == types.ResponseProcessProposal_REJECT && old(resp.Status) != types.ResponseProcessProposal_REJECT ==> GPropResets > old(GPropResets)
+//@   note the deferred handler that turns a panic of the proposal execution into REJECT also resets the proposal state (fresh tree at the committed root, no results): a rejected proposal has been executed PARTLY, and if the same block is decided after all, BeginBlock must not find "same hash, needs execution" over the half-written overlay - it would apply the block's updates twice and leave this replica with another state root (seed C01_i moved the reset into the error branch, which is never taken: every failure of the execution is a panic). The handler's body is executed with an arbitrary state (closure 1 ensures); that a panic of the execution reaches it is Go's defer/recover semantics, not modelled
 
 //@ func abciMux.PrepareProposal
 //@   props C01
